@@ -286,7 +286,7 @@ struct C12 : Scenario {
 			uint64_t cur = 0;
 			for (size_t i = 0; i < fd.len; ++i) cur |= (uint64_t) a.bytes[hs + fd.off + i] << (8 * i);
 			uint64_t maxv = (1ULL << (8 * fd.len)) - 1;
-			uint64_t vals[] = {cur + 1, cur - 1, cur + 2, cur - 2, 0, maxv, cur + 3, maxv - 1};
+			uint64_t vals[] = {cur + 1, cur - 1, cur + 2, cur - 2, 0, maxv, cur + 3, maxv - 1, cur + 4, 1, 2, 3, 4, 5};
 			for (uint64_t nv : vals) {
 				nv &= maxv;
 				if (nv == cur || !res.ok) continue;
@@ -322,7 +322,7 @@ struct C11 : Scenario {
 	uint64_t total_runs(uint64_t, const std::string &tier) override { return tier == "quick" ? 1500000 : 40000000; }
 	const char *nontrivial_rule() const override {
 		return "a run is one archive of 1-3 headers whose stored name/path strings are drawn from the alphabet {'.', '/', '\\\\', 0xFF, NUL, '|', "
-		       "letter, LETTER} (lengths 0-12, uniform over length then over strings) as in-header names (levels 0/1), 0x01/0x02 extended "
+		       "letter, LETTER} (lengths 0-12, uniform over length then over strings; one string in four additionally mixes in arbitrary bytes) as in-header names (levels 0/1), 0x01/0x02 extended "
 		       "headers (levels 1-3) and symlink 'name|target' forms, under every OS byte class; every header the library returns is "
 		       "scanned: file name has no '/', every '/'-terminated path component is non-empty and neither '.' nor '..'. Non-trivial = a "
 		       "header was returned whose stored strings contained a separator or a dot component; distinct = distinct trace hash. "
@@ -338,7 +338,9 @@ struct C11 : Scenario {
 		static const uint8_t alpha[] = {'.', '/', '\\', 0xff, 0x00, '|', 'a', 'A', '.', '/'};
 		int n = (int) rng.below((uint64_t) maxlen + 1);
 		Bytes b;
-		for (int i = 0; i < n; ++i) b.push_back(alpha[rng.below(sizeof alpha)]);
+		// "randomly beyond" the small alphabet: one string in four mixes arbitrary bytes with the separators
+		bool beyond = rng.chance(1, 4);
+		for (int i = 0; i < n; ++i) b.push_back(beyond && rng.chance(1, 2) ? rng.byte() : alpha[rng.below(sizeof alpha)]);
 		return b;
 	}
 	Plan generate(uint64_t seed, uint64_t run, const std::string &) override {
